@@ -108,9 +108,39 @@ theorem bodyErrs_nil (all : List Module) (m : Module) : bodyErrs all m = [] ↔ 
 
 /-! ### the checker decides well-formedness -/
 
+theorem pdefErrs_nil (env : Env) (m : Module) : pdefErrs env m = [] ↔ PDefWF env m := by
+  simp only [pdefErrs, PDefWF, flatMap_nil]
+  constructor
+  · intro h p hp
+    have := h p hp
+    cases hd : defaultOf env m.name p with
+    | none => rw [hd] at this; simp at this
+    | some e =>
+      rw [hd] at this
+      simp only [flatMap_nil] at this
+      refine ⟨e, rfl, fun n hn => ?_⟩
+      have h2 := this n ((mem_exprIds e n).2 hn)
+      simp only [List.append_eq_nil_iff, need_nil, isKeyword_false, decide_eq_true_eq] at h2
+      exact h2
+  · intro h p hp
+    obtain ⟨e, he, hu⟩ := h p hp
+    rw [he]
+    simp only [flatMap_nil, List.append_eq_nil_iff, need_nil, isKeyword_false, decide_eq_true_eq]
+    intro n hn
+    exact hu n ((mem_exprIds e n).1 hn)
+
 theorem checkE_iff (env : Env) : checkE env = [] ↔ WellFormedE env := by
-  simp only [checkE, List.append_eq_nil_iff, flatMap_nil, headerErrs_nil, bodyErrs_nil]
-  exact ⟨fun ⟨a, b⟩ => ⟨a, b⟩, fun ⟨a, b⟩ => ⟨a, b⟩⟩
+  simp only [checkE, List.append_eq_nil_iff, flatMap_nil, headerErrs_nil, bodyErrs_nil, pdefErrs_nil]
+  exact ⟨fun ⟨⟨a, b⟩, c⟩ => ⟨a, b, c⟩, fun ⟨a, b, c⟩ => ⟨⟨a, b⟩, c⟩⟩
+
+/-- non-vacuity of R-pdef: a parameter chain is accepted, a bare parameter and a default over an undeclared name are not -/
+def exParam : Module := { name := "P", params := ["A", "B"], ports := [⟨.inp, false, 1, "a"⟩, ⟨.out, false, 1, "r"⟩],
+                          items := [.assign (.lid "r") (.id "a")] }
+example : checkE { mods := [exParam], pdefs := [(("P", "A"), .num none true 2 true),
+                                                  (("P", "B"), .bin "add" (.id "A") (.num none true 1 true))] } = [] := by decide
+example : (checkE { mods := [exParam], pdefs := [(("P", "A"), .num none true 2 true)] }).map Err.msg = ["paramNoDefault|P|B"] := by decide
+example : (checkE { mods := [exParam], pdefs := [(("P", "A"), .num none true 2 true), (("P", "B"), .id "C")] }).map Err.msg
+    = ["undeclared|P|C"] := by decide
 
 /-- soundness: no reported error ⇒ the design is a closed, legal, single-driver design -/
 theorem check_sound (d : Design) : check d = [] → WellFormed d := by
